@@ -55,8 +55,13 @@ func respell(line string, mode int) string {
 			toks[i] = f("FROM:") + tk[5:]
 		case strings.HasPrefix(tk, "TO:"):
 			toks[i] = f("TO:") + tk[3:]
-		case strings.HasPrefix(tk, "BODY=") || strings.HasPrefix(tk, "SIZE="):
+		case strings.HasPrefix(tk, "BODY=") || strings.HasPrefix(tk, "SIZE=") || strings.HasPrefix(tk, "RET=") || strings.HasPrefix(tk, "NOTIFY=") ||
+			tk == "SMTPUTF8" || tk == "REQUIRETLS":
 			toks[i] = f(tk)
+		case strings.HasPrefix(tk, "ENVID=") || strings.HasPrefix(tk, "ORCPT=") || strings.HasPrefix(tk, "RRVS=") || strings.HasPrefix(tk, "AUTH="):
+			// the keyword only: these values are case-sensitive
+			k := strings.IndexByte(tk, '=')
+			toks[i] = f(tk[:k]) + tk[k:]
 		}
 	}
 	return strings.Join(toks, " ")
@@ -69,6 +74,11 @@ type hCase struct {
 	// C04 only: how the octets of the lock-step run are re-sent
 	Discipline string `json:"discipline,omitempty"` // "" lock-step only, "one", "random", "octet", "lines"
 	CutSeed    int    `json:"cut_seed,omitempty"`
+	// ShutdownAt = k > 0: a graceful Server.Shutdown (no deadline) begins
+	// before the k-th command is sent. It stops the server accepting; the
+	// connection under test is already open and stays served, so nothing
+	// about the conversation changes.
+	ShutdownAt int `json:"shutdown_at,omitempty"`
 }
 
 func (c hCmd) String() string {
@@ -355,6 +365,9 @@ func genHistory(t *rapid.T, maxLen int, garbageCtl bool) hCase {
 		}
 		c.Cmds = append(c.Cmds, cmd)
 	}
+	if rapid.IntRange(0, 5).Draw(t, "shutdown") == 0 {
+		c.ShutdownAt = rapid.IntRange(1, len(c.Cmds)).Draw(t, "shutdown_at")
+	}
 	return c
 }
 
@@ -467,7 +480,12 @@ func runLockstep(c hCase) hRun {
 		return true
 	}
 	closed := false
-	for _, cmd := range c.Cmds {
+	for ci, cmd := range c.Cmds {
+		if c.ShutdownAt == ci+1 && !r.BeginShutdown() {
+			w.Finish()
+			run.incon = "graceful Shutdown did not close the listener (watchdog)"
+			return run
+		}
 		sr := stepRec{Cmd: cmd}
 		line, payload := cmd.line(c.Cfg.LMTP)
 		switch cmd.Op {
